@@ -86,7 +86,7 @@ CFG = dict(
          "must be identical for min / max / arg-extrema / rank and within 1e-9 relative to the history magnitude otherwise, for all 37 "
          "entry points. nt=0 marks the empty prefix.",
     theorem_hint="Props/C06.v",
-    level_text="Proof (Coq, 37 theorems in Props/C06.v). (A) No look-ahead, bit for bit: the prefix law out(firstn k xs) = firstn k "
+    level_text="Proof (Coq, 43 theorems in Props/C06.v). (A) No look-ahead, bit for bit: the prefix law out(firstn k xs) = firstn k "
                "(out xs) for EVERY add-emit-remove rolling feature over every carrier (no law of the numeric class is used, so it "
                "holds at binary64 too), both driver bodies, every window >= 1 and cut k (moments, ewm, wma, z-score, cov / corr / "
                "regression-on-x over the zipped series, trend regressions); for the slice-form drivers (fdiff) with any stateful "
@@ -107,10 +107,21 @@ CFG = dict(
                "regression-residual statistics (windows of both series). Still partial: at carriers other than Z / option R the "
                "index-form prefix laws assume that the call on the whole series returns (no panic) — shown by the correspondence "
                "runs, not proved for binary64; the window-only law of the accumulator families holds up to rounding in binary64 "
-               "(DESIGN 5.1/5.2), checked by the two-history runs. Tied to the code by relational runs on the implementation (all "
+               "(DESIGN 5.1/5.2): for the rolling SUM this is now a theorem about the execution instance (Coq's primitive "
+               "binary64, Flocq's IEEE addition; Proofs/RoundSum.v, (13)-(17)) — after any history the emitted sum is within "
+               "((1+u)^m - 1) * H of the exact window sum (u = 2^-53, m <= 2i+1 operations performed so far, H <= 2 * sum of |x| "
+               "over the history; also (2i+1) * u * max accumulator), two histories with the same window differ by at most the "
+               "two bounds (C06_history_independence_up_to_rounding_ts_vsum), the only premise being that the emitted value is "
+               "finite, and on dyadic-grid data (the generated k/4 inputs) no operation rounds, so the binary64 run equals the "
+               "exact run; for the other accumulator families (mean, var, skew, kurt, ewm, wma, cross sums, trend) the rounding "
+               "bound is still only the tolerance of the two-history runs. Tied to the code by relational runs on the implementation (all "
                "cuts, bit for bit; two histories) plus the model run on every prefix.",
     level_note="Trusted: Coq kernel (+ Reals axioms for the window-only statements); the models of the rolling families; DESIGN 5.2 "
                "(finite bounded histories: an infinite or overflowing history poisons the accumulators forever) and 5.3 (omitted "
                "min_periods of the extrema/rank family only for len >= w).",
-    trusted=["Reals axioms of the Coq standard library under the window-only theorems"],
+    trusted=["Reals axioms of the Coq standard library under the window-only theorems",
+             "under the binary64 rounding theorems (13)-(17): additionally Classical_Prop.classic and the standard library's "
+             "specification of the primitive floats (FloatAxioms.add_spec, sub_spec, opp_spec, abs_spec, eqb_spec, Prim2SF_valid, "
+             "SF2Prim_Prim2SF, Prim2SF_SF2Prim) on which Flocq.IEEE754.PrimFloat rests; the Flocq 4.1.0 library itself is "
+             "checked by Coq and declares no axiom"],
 )
